@@ -794,6 +794,9 @@ pub fn child_main(path: &str) {
 /// Runs the spec in a child process with real command-line arguments and
 /// environment variables.
 pub fn run_child(spec: &TwinSpec, args: &[String], env: &[(String, String)], tag: &str) -> Result<(TwinRun, i32, String), String> {
+    if CLI_IN_PROCESS.with(|c| c.get()) {
+        return run_cli_in_process(spec, args, env);
+    }
     let dir = std::path::Path::new(crate::engine::VERIF_DIR).join("target").join("twin");
     std::fs::create_dir_all(&dir).map_err(|e| e.to_string())?;
     let spec_path = dir.join(format!("{tag}.spec.json"));
@@ -820,4 +823,85 @@ pub fn run_child(spec: &TwinSpec, args: &[String], env: &[(String, String)], tag
         None => (Vec::new(), Vec::new()),
     };
     Ok((TwinRun { stdout: String::from_utf8_lossy(&out.stdout).to_string(), invocations, arg_evals, panic: if code == 101 { Some(stderr.clone()) } else { None } }, code, stderr))
+}
+
+// ---------------------------------------------------------------------------
+// The same command-line route without a child process: `config_with_args()`
+// parses the case's argument list (hook `__verif::cli::set_args`) with the real
+// `clap` command, the case's environment variables are set in this process for
+// the duration of the run. Exit codes mirror the child's: 0, 2 (command line
+// rejected), 101 (panic).
+
+thread_local! {
+    static CLI_IN_PROCESS: std::cell::Cell<bool> = const { std::cell::Cell::new(false) };
+}
+
+/// Runs `f` with [`run_child`] routed through this process.
+pub fn with_cli_in_process<R>(f: impl FnOnce() -> R) -> R {
+    struct Reset(bool);
+    impl Drop for Reset {
+        fn drop(&mut self) {
+            CLI_IN_PROCESS.with(|c| c.set(self.0));
+        }
+    }
+    let _reset = Reset(CLI_IN_PROCESS.with(|c| c.replace(true)));
+    f()
+}
+
+fn divan_env_names() -> Vec<String> {
+    std::env::vars_os().filter_map(|(k, _)| k.into_string().ok()).filter(|k| k.starts_with("DIVAN_") || k == "NEXTEST").collect()
+}
+
+pub fn run_cli_in_process(spec: &TwinSpec, args: &[String], env: &[(String, String)]) -> Result<(TwinRun, i32, String), String> {
+    register(spec)?;
+    install_clock();
+    // The child starts from an empty environment.
+    let saved: Vec<(String, Option<std::ffi::OsString>)> = divan_env_names().into_iter().map(|k| (k.clone(), std::env::var_os(&k))).collect();
+    for (k, _) in &saved {
+        std::env::remove_var(k);
+    }
+    let mut builder: Option<OptSpec> = None;
+    let mut skips: Option<Vec<(bool, String)>> = None;
+    for (k, v) in env {
+        match k.as_str() {
+            "VCHECK_TWIN_BUILDER" => builder = serde_json::from_str(v).ok(),
+            "VCHECK_TWIN_BUILDER_SKIPS" => skips = serde_json::from_str(v).ok(),
+            _ => std::env::set_var(k, v),
+        }
+    }
+    let mut argv = vec!["vcheck".to_string()];
+    argv.extend(args.iter().cloned());
+    divan::__verif::cli::set_args(Some(argv));
+    let (result, stdout) = capture::stdout(move || {
+        if builder.is_some() || skips.is_some() {
+            let mut d = apply_builder(Divan::default(), &builder.unwrap_or_default());
+            for (exact, pattern) in skips.unwrap_or_default() {
+                d = if exact { d.skip_exact(pattern) } else { d.skip_regex(pattern.as_str()) };
+            }
+            d.config_with_args().main()
+        } else {
+            divan::main()
+        }
+    });
+    divan::__verif::cli::set_args(None);
+    for (k, _) in env {
+        if !k.starts_with("VCHECK_TWIN_") {
+            std::env::remove_var(k);
+        }
+    }
+    for (k, v) in saved {
+        if let Some(v) = v {
+            std::env::set_var(k, v);
+        }
+    }
+    uninstall_clock();
+    runner::clear_registry();
+    let invocations = std::mem::take(&mut *INVOCATIONS.lock().unwrap());
+    let arg_evals = ARG_EVALS.lock().unwrap().clone();
+    let (code, stderr, panic) = match result {
+        Ok(()) => (0, String::new(), None),
+        Err(msg) if msg.contains(divan::__verif::cli::REJECTED) => (2, msg, None),
+        Err(msg) => (101, msg.clone(), Some(msg)),
+    };
+    Ok((TwinRun { stdout, invocations, arg_evals, panic }, code, stderr))
 }
